@@ -331,6 +331,42 @@ def run_cmp_check(prop, tier):
                                     "value types compared by identity (std::unique_ptr) are not part of the pools"])
 
 
+# ---------------------------------------------------------------------------------------------- C11 ref
+REF_CONFIGS = [
+    # shapes of the trivially-assignable / swappable run tables: T N TT TN NT TNT NTN TTN, then spans
+    ("P:u32", "std"), ("P:str", "s000"), ("P:u32,P:u16", "s000"), ("P:u32,P:str", "std"), ("P:str,P:u8", "s111"), ("P:u8,P:Tr8,P:u16", "s000"),
+    ("P:str,P:u32,P:Tr4", "s010"), ("P:u8,P:u16@2,P:str", "s000"), ("F:u16,P:str,F:u8", "s000"), ("C:u32,V:u16,P:str", "s100"), ("C:u8,V:Tr4,P:u8@4", "s000"),
+    ("F:uptr,P:uptr", "s000"), ("C:u64@8,V:uptr,P:u16", "std"), ("F:f32@8,P:u32@16,F:f32", "s001"), ("P:u32,C:u64@8,V:f32", "s000"), ("F:Tr8,C:u8,V:u16@2,P:Tr4@4", "s000"),
+    ("P:TrMv8,F:u8,P:TrMv8", "s011"), ("C:u64@8,V:str,P:str", "s000"), ("P:bool,P:enumE,F:ptr,P:B12@4", "s000d"), ("C:u16,V:B3,C:u32,V:u64@8", "s000"),
+]
+REF_RULE = "per case one vector (1..7 elements of equal field sizes) and a model; sequences of <= 30 steps: writes through 8 access paths each cross-read through up to 16 paths, reference copy / move assignment in 5 forms, swap / iter_swap, std::rotate / reverse / swap_ranges against the same algorithm on the model, iterator arithmetic and comparisons against index arithmetic for all index pairs in [0, size()]; non-trivial: a permuting algorithm moved >= 2 elements; distinct: hash of the operation list"
+
+
+def ref_units(tier, seed):
+    configs = list(REF_CONFIGS)
+    if tier == "thorough":
+        configs += [(c, k[0]) for c, k in sampled_configs(seed + 200, 40) if len(vf.parse_cfg(c)) <= 7]
+    cases = 300 if tier == "quick" else 4000
+    if os.environ.get("VERIF_CASES"):
+        cases = int(os.environ["VERIF_CASES"])
+    flavours = ["plain", "asan"] if tier == "quick" else ["plain", "asan", "casan"]
+    units = []
+    for cfg, k in configs:
+        for fl in flavours:
+            a = {"seed": seed, "max-n": 7 if tier == "quick" else 14, "max-steps": 30}
+            units.append(Unit("ref", cfg, k, fl, a, cases if fl != "casan" else cases // 3, batch=50 if tier == "quick" else 200))
+    return units
+
+
+def run_ref_check(tier):
+    t0 = time.time()
+    units = ref_units(tier, vf.SEED)
+    errs = vf.run_units(units)
+    return vf.conclude("C11", tier, "exploration", units, errs, REF_RULE, t0,
+                       assumptions=["reference assignment / swap only between elements of equal field sizes (the documented precondition)", "a prvalue mutable reference on the right-hand side is an rvalue mutable reference: the assignment moves",
+                                    "moved-from std::string contents are not compared"])
+
+
 def setup():
     units = []
     for prop in ["C01"]:
@@ -361,6 +397,8 @@ def units_for(prop, tier, seed):
         return hist_units(prop, tier, seed)
     if prop in ("C13", "C14"):
         return cmp_units(prop, tier, seed)
+    if prop == "C11":
+        return ref_units(tier, seed)
     raise KeyError(prop)
 
 
@@ -371,6 +409,8 @@ def run_check(prop, tier):
         return run_matrix_check(tier)
     if prop in ("C13", "C14"):
         return run_cmp_check(prop, tier)
+    if prop == "C11":
+        return run_ref_check(tier)
     sys.stderr.write("no check for %s\n" % prop)
     return 2
 
